@@ -37,7 +37,9 @@ COEFS = [-1.5, -.5, .25, .5, .8, 1., 2.]
 CONSTS = [0., 1., -3.5, 1e3]
 MATH_ENV = dict((k, getattr(math, k)) for k in dir(math) if not k.startswith('_'))
 USER_FUNCS = {'f': lambda v: 0.5 * v + 1.0, 'sat': lambda v: max(-5.0, min(5.0, v)),
-              'growth': lambda a, b: (b / a - 1.) if a != 0 else float('nan')}      # a growth rate from a zero level is not a number
+              'growth': lambda a, b: (b / a - 1.) if a != 0 else float('nan'),
+              # a table look-up by text label with a default: an altered label silently yields another number
+              'rate': lambda label: {'band 1 - low, basic': 0.25, 'x , y': 0.5}.get(label, 0.0)}      # a growth rate from a zero level is not a number
 
 
 def dress(core_eqs, kind, horizon, tol):
@@ -85,6 +87,7 @@ SPECIAL = [
     ('decorative-tree', Block([('x', '.5*y + 1.'), ('y', '.5*x'), ('d1', 'x + y'), ('d2', 'd1*2'), ('d3', 'd1 - d2'), ('d4', 'd3 + d2 + x')], maxtime=3)),
     ('decorative-forward-chain', Block([('inc', 'y'), ('disp', 'inc'), ('base', 'disp'), ('spend', 'base + 1.5'), ('y', '.5*y + g')],
                                        exos=[('g', '[1., 3., 7., 2.]')], maxtime=3)),
+    ('userfunc-label-alias', Block([('x', "rate('band 1 - low, basic') * y + 2."), ('y', '.25*al + 1.'), ('al', 'x'), ('d', "al + rate('x , y')")], maxtime=3)),
     ('weakly-coupled', Block([('x', 'g + y'), ('y', '0.0001*x + 5.'), ('d', 'x - y')], exos=[('g', '[64., 64., 64., 96.5, 96.5, 96.5]')], maxtime=5)),
     ('user-time', Block([('t', 'LAG_t + 0.25'), ('x', '.5*x + t')], lags=[('LAG_t', 't')], ics={'t': '2000.'}, maxtime=3)),
 ]
